@@ -212,7 +212,7 @@ def Ctx.readerResub (c : Ctx) (t : Topic) (a : Actor) (ud0 : PUD) (want : String
     else (c, true)
   if !ok then (c.emit a.sid (ctrl 500 tn), t, none) else
   let c := if !asChan ∧ isPresencer (oldWant &&& oldGiven) ∧ !isPresencer (eff ud) then
-      c.presSingleOffline t a.uid (eff ud) "off+dis" "" "" "" "" false else c
+      c.presSingleOffline t a.uid (eff ud) "off" "" "" "" "" false "dis" else c
   let t := t.setPud a.uid ud
   let changed := oldWant ≠ ud.want ∨ oldGiven ≠ ud.given
   let c := if changed then
@@ -225,8 +225,8 @@ def Ctx.readerResub (c : Ctx) (t : Topic) (a : Actor) (ud0 : PUD) (want : String
         else c
       -- under the group name the change counts as one of an ordinary subscription: muting and un-muting are announced
       let c := if asChan then c
-        else if !hearsPres (eff ud) ∧ hearsPres (oldWant &&& oldGiven) then c.presSingleOfflineOffline a.uid tn "off+dis" "" "" "" ""
-        else if hearsPres (eff ud) ∧ !hearsPres (oldWant &&& oldGiven) then c.presSingleOffline t a.uid (eff ud) "?unkn+en" "" "" "" "" false
+        else if !hearsPres (eff ud) ∧ hearsPres (oldWant &&& oldGiven) then c.presSingleOfflineOffline a.uid tn "off" "" "" "" "" "dis"
+        else if hearsPres (eff ud) ∧ !hearsPres (oldWant &&& oldGiven) then c.presSingleOffline t a.uid (eff ud) "?unkn" "" "" "" "" false "en"
         else c
       let c := c.presDirect t { what := "acs", src := "", extra := acs, singleUser := a.uid, skipSid := a.sid }
       c.presSingleOffline t a.uid (eff ud) "acs" acs a.uid a.uid a.sid true
